@@ -151,15 +151,19 @@ class JobControl:
         return result
 
     def stop_current(self) -> bool:
-        agent = self._active_agent
-        if agent is not None and agent.is_running():
-            if self._acquire_lock():
-                try:
+        # Under the lock: between the moment a job is made the current one
+        # and the moment its thread has been started there is nothing an
+        # unlocked look could go by, and the request would be dropped.
+        result = False
+        if self._acquire_lock():
+            try:
+                agent = self._active_agent
+                if agent is not None:
                     agent.request_stop()
-                finally:
-                    self._release_lock()
-                return True
-        return False
+                    result = True
+            finally:
+                self._release_lock()
+        return result
 
     def has_jobs(self) -> bool:
         return (len(self._queue) > 0 or len(self._background) > 0 or
